@@ -94,6 +94,20 @@ let () =
            | Some l -> hex_encode (String.init (List.length l) (fun i -> Char.chr (int_of_n (List.nth l i))))
            | None -> "!" in
          out_s (hex_encode e ^ " " ^ d)
+       | ["KEY"; st; content; rnd] ->
+         let bytes_of h = List.map (fun ch -> n_of_int (Char.code ch)) (chars_of (hex_decode h)) in
+         let str_of l = hex_encode (String.init (List.length l) (fun i -> Char.chr (int_of_n (List.nth l i)))) in
+         let s0 = match st with "A" -> KAbsent | "F" -> KFile (chars_of (hex_decode content), n_of_int 420) | "D" -> KDir | "P" -> KParentMissing | _ -> KUnreadable in
+         let (s1, o) = run_key s0 (bytes_of rnd) in
+         let ss = match s1 with KAbsent -> "A -" | KFile (c, m) -> "F " ^ hex_encode (string_of_chars c) ^ ":" ^ string_of_int (int_of_n m) | KDir -> "D -" | KParentMissing -> "P -" | KUnreadable -> "U -" in
+         out_s (ss ^ " " ^ (match o with KeyOk k -> "OK " ^ str_of k | KeyFail -> "FAIL"))
+       | ["CLI"; bits] ->
+         let b i = bits.[i] = '1' in
+         let f = { f_file = b 0; f_stdin = b 1; f_out = b 2; f_encrypt = b 3; f_regexp = b 4; f_fieldnames = b 5;
+                   f_proj = b 6; f_cluster = b 7; f_pub = b 8; f_priv = b 9; f_start = b 10; f_end = b 11; f_env = b 12 } in
+         let v = match decide f with CReject r -> "reject:" ^ string_of_int (int_of_nat r) | CAccept MAtlas -> "accept:atlas" | CAccept MFile -> "accept:file" | CAccept MStdin -> "accept:stdin" in
+         let e = String.concat "," (List.map (function ECreateOutput -> "out" | EKeyFile -> "key" | ENetwork -> "net" | EReadInput -> "read") (effects f)) in
+         out_s (v ^ " " ^ (if e = "" then "-" else e))
        | _ -> out_s "BADREQ");
       if !remiss then out_s " TABLEMISS";
       out_nl ()
